@@ -10,38 +10,6 @@ and `pi_X_rules : propInfo j5Env sXField "rules" = some (index, none, .container
 -/
 namespace J5V.Walker
 
-def sObjectField : Schema := j5_schema_lit% "j5.schema.v1.ObjectField"
-def sOneofField : Schema := j5_schema_lit% "j5.schema.v1.OneofField"
-def sEnumField : Schema := j5_schema_lit% "j5.schema.v1.EnumField"
-def sArrayField : Schema := j5_schema_lit% "j5.schema.v1.ArrayField"
-def sMapField : Schema := j5_schema_lit% "j5.schema.v1.MapField"
-def specObjectField : BlockSpec := j5_spec_lit% "j5.schema.v1.ObjectField"
-def specOneofField : BlockSpec := j5_spec_lit% "j5.schema.v1.OneofField"
-def specEnumField : BlockSpec := j5_spec_lit% "j5.schema.v1.EnumField"
-def specArrayField : BlockSpec := j5_spec_lit% "j5.schema.v1.ArrayField"
-def specMapField : BlockSpec := j5_spec_lit% "j5.schema.v1.MapField"
-
-theorem schemaOf_ObjectField : j5Env.schemaOf b!"j5.schema.v1.ObjectField" = sObjectField := by
-  rw [j5Env_nf]; decide +kernel
-theorem schemaOf_OneofField : j5Env.schemaOf b!"j5.schema.v1.OneofField" = sOneofField := by
-  rw [j5Env_nf]; decide +kernel
-theorem schemaOf_EnumField : j5Env.schemaOf b!"j5.schema.v1.EnumField" = sEnumField := by
-  rw [j5Env_nf]; decide +kernel
-theorem schemaOf_ArrayField : j5Env.schemaOf b!"j5.schema.v1.ArrayField" = sArrayField := by
-  rw [j5Env_nf]; decide +kernel
-theorem schemaOf_MapField : j5Env.schemaOf b!"j5.schema.v1.MapField" = sMapField := by
-  rw [j5Env_nf]; decide +kernel
-theorem specOf_ObjectField0 : specOf j5Env ⟨[], .msg sObjectField⟩ = .ok specObjectField := by
-  rw [j5Env_nf]; decide +kernel
-theorem specOf_OneofField0 : specOf j5Env ⟨[], .msg sOneofField⟩ = .ok specOneofField := by
-  rw [j5Env_nf]; decide +kernel
-theorem specOf_EnumField0 : specOf j5Env ⟨[], .msg sEnumField⟩ = .ok specEnumField := by
-  rw [j5Env_nf]; decide +kernel
-theorem specOf_ArrayField0 : specOf j5Env ⟨[], .msg sArrayField⟩ = .ok specArrayField := by
-  rw [j5Env_nf]; decide +kernel
-theorem specOf_MapField0 : specOf j5Env ⟨[], .msg sMapField⟩ = .ok specMapField := by
-  rw [j5Env_nf]; decide +kernel
-
 /-! ### `StringField_Rules` -/
 
 def sStringRules : Schema := j5_schema_lit% "j5.schema.v1.StringField_Rules"
